@@ -219,4 +219,16 @@ example :
     seqnsFor 7 (emitUsars s rs 0 false).2 = [4, 5, 6] ∧ seqnsFor 8 (emitUsars s rs 0 false).2 = [0] ∧
     seqnsFor 9 (emitUsars s rs 0 false).2 = [] := by decide
 
+/-- a retransmission timer expiring — a retry, or the last one, after which the request is given up — changes nothing in any
+    session: in particular no UR-SEQN counter is rewound because a report was (perhaps) not delivered; the number that went out
+    on the wire stays used -/
+theorem timeout_keeps_numbering (st : State) (addr : String) (seq : BitVec 24) (env : Env) :
+    (step st (.txTimeout addr seq) env).1.lnode = st.lnode ∧ (step st (.rxTimeout addr seq) env).1.lnode = st.lnode := by
+  constructor
+  · simp only [step]
+    split
+    · rfl
+    · split <;> rfl
+  · simp [step]
+
 end UpfVerif.C11
